@@ -121,7 +121,13 @@ class Conn:
         for k, v in headers:
             blk += enc_field(k.lower(), v, (name_index or {}).get(k.lower()))
         es = (body is None) if end_stream is None else end_stream
-        out = frame(1, 4 | (1 if es else 0), sid, blk)
+        if len(blk) <= 16384:
+            out = frame(1, 4 | (1 if es else 0), sid, blk)
+        else:
+            # a header block larger than SETTINGS_MAX_FRAME_SIZE travels as HEADERS + CONTINUATION frames (RFC 9113 6.10)
+            out = frame(1, (1 if es else 0), sid, blk[:16384]); p = 16384
+            while p < len(blk):
+                out += frame(9, 4 if p + 16384 >= len(blk) else 0, sid, blk[p:p + 16384]); p += 16384
         if body is not None:
             p = 0
             while p < len(body) or p == 0:
